@@ -21,6 +21,7 @@ import (
 	"bytes"
 	"crypto/sha256"
 	"fmt"
+	"math"
 	"os"
 	"os/exec"
 	"path/filepath"
@@ -385,6 +386,39 @@ var concRawFonts = []string{"sttf+img", "sttf+imgj", "sttf+odd", "ttf+img", "ttf
 // dictionaries without blue values, nil cmap table, no raw tables / names / maxp.
 var concNilFonts = []string{"cffnoenc", "cffemptyenc", "cffnil", "cffnocmap", "sttfnil", "sttfnocmap"}
 
+// concFinalFonts: "sttfunhint" carries the raw hinting tables cvt/fpgm/prep but only the glyphs
+// of H and I keep their instructions (the instruction bytes are cut out of the glyph data of all
+// others, .notdef included), so most subsets contain no hinted glyph.  "cidread" is a CID-keyed
+// CFF font with three FD ranges that went through Write and sfnt.Read, so that its FDSelect is
+// the closure built by the reader (format 3).
+var concFinalFonts = []string{"sttfunhint", "cidread"}
+
+// concStripHints removes the TrueType instructions from simple glyphs (all but `keep`).
+func concStripHints(o *glyf.Outlines, keep map[glyph.ID]bool) {
+	for gid, g := range o.Glyphs {
+		if g == nil || keep[glyph.ID(gid)] {
+			continue
+		}
+		d, ok := g.Data.(glyf.SimpleGlyph)
+		if !ok {
+			continue
+		}
+		k := 2 * int(d.NumContours)
+		if len(d.Encoded) < k+2 {
+			continue
+		}
+		n := int(d.Encoded[k])<<8 | int(d.Encoded[k+1])
+		if n == 0 || len(d.Encoded) < k+2+n {
+			continue
+		}
+		enc := append([]byte{}, d.Encoded[:k]...)
+		enc = append(enc, 0, 0)
+		enc = append(enc, d.Encoded[k+2+n:]...)
+		d.Encoded = enc
+		o.Glyphs[gid] = &glyf.Glyph{Rect16: g.Rect16, Data: d}
+	}
+}
+
 var concLayoutFonts = []string{"cffall", "cffallx", "cffall5", "cffalln", "sttfall", "sttfallx", "sttfalln", "cffsub", "sttfsub"}
 
 // concSubGsub / concSubGpos: only the lookup types Subset implements (GSUB 1.1 and 4.1, GPOS
@@ -731,6 +765,9 @@ func concFontRaw(id string) *sfnt.Font {
 			concAddAll(f, 1)
 		case "sttfalln":
 			concAddAll(f, 3)
+		case "sttfunhint":
+			cm, _ := f.CMapTable.GetBest()
+			concStripHints(o, map[glyph.ID]bool{cm.Lookup('H'): true, cm.Lookup('I'): true})
 		case "sttfnil":
 			o.Names, o.Tables, o.Maxp = nil, nil, nil
 			f.Gdef, f.Gsub, f.Gpos = nil, nil, nil
@@ -782,6 +819,18 @@ func concFontRaw(id string) *sfnt.Font {
 		case "cffallx":
 			concAddAll(f, 1)
 		}
+	case id == "cidread":
+		f = debug.MakeSimpleFont()
+		f.CreationTime, f.ModificationTime = concFixedTime, concFixedTime
+		concMultiFD(f)
+		o := f.Outlines.(*cff.Outlines)
+		n := len(o.Glyphs)
+		o.FDSelect = func(gid glyph.ID) int { return 3 * int(gid) / n } // three contiguous ranges
+		var buf bytes.Buffer
+		if _, err := f.Write(&buf); err != nil {
+			panic(err)
+		}
+		f = concReadTTF(buf.Bytes())
 	case id == "ttf":
 		f = concReadTTF(goregular.TTF)
 	case id == "ttfgtab":
@@ -1041,6 +1090,22 @@ var concOps = []concOp{
 	}},
 	{"glyphnames", "", func(f *sfnt.Font, r *concRng) string {
 		return concShort(strings.Join(f.MakeGlyphNames(), ","))
+	}},
+	{"pdfmetrics", "", func(f *sfnt.Font, r *concRng) string {
+		// GlyphWidthPDF and GlyphBBoxPDF of EVERY glyph, many times over, in an order that keeps
+		// switching between the FD ranges of a CID-keyed font
+		n := f.NumGlyphs()
+		iters := 1 + 6000/(n+1)
+		h := uint64(17)
+		for it := 0; it < iters; it++ {
+			for i := 0; i < n; i++ {
+				gid := glyph.ID((i*7 + it) % n)
+				h = mix(h, math.Float64bits(f.GlyphWidthPDF(gid)))
+				bb := f.Outlines.GlyphBBoxPDF(f.FontMatrix, gid)
+				h = mix(h, math.Float64bits(bb.LLx)^math.Float64bits(bb.URy))
+			}
+		}
+		return fmt.Sprintf("%x,%v", h, f.FontBBoxPDF())
 	}},
 	{"glyphname", "", func(f *sfnt.Font, r *concRng) string {
 		var b strings.Builder
@@ -1609,6 +1674,7 @@ func areaConc(c *Ctx) {
 	fonts = append(fonts, concRawFonts...)
 	fonts = append(fonts, concLayoutFonts...)
 	fonts = append(fonts, concNilFonts...)
+	fonts = append(fonts, concFinalFonts...)
 	for _, i := range []int{0, 7, 19, 33, 48, 61, 77, 90, 104, 118} {
 		if i < len(testcases.Gsub) {
 			fonts = append(fonts, fmt.Sprintf("tc%d", i))
@@ -1719,6 +1785,21 @@ func areaConc(c *Ctx) {
 			i++
 		}
 	}
+	// Subset of few, unhinted glyphs of a font that carries hinting tables (small-list mode forced)
+	for k := 0; k < 4; k++ {
+		arg := c.Rng.U64() >> 1
+		for (&concRng{s: arg}).intn(2) == 0 {
+			arg = c.Rng.U64() >> 1
+		}
+		c.Stat("pure.result", strings.SplitN(c.Case(Direct, "conc.pure", fmt.Sprintf("op=subset font=sttfunhint arg=%d", arg), true), ":", 2)[0])
+		c.Stat("pure.op", "subset(few)")
+		drain()
+		i++
+	}
+	for _, op := range []string{"write", "writepdf", "pdfmetrics", "subset", "ascffwrite", "widths"} {
+		pure(op, "cidread")
+		i++
+	}
 	// completeness of the snapshot itself (a planted write in every slice/map must change the hash)
 	self := []string{"cffalln", "cffall5", "cffsub", "cid"}
 	if thorough {
@@ -1803,6 +1884,16 @@ func areaConc(c *Ctx) {
 		if nRace < 20 {
 			nRace = 20
 		}
+	}
+	// a CID-keyed font READ FROM A FILE (the reader's FDSelect closure), many goroutines asking for
+	// glyphs of different FD ranges at the same time
+	for _, a := range []string{"pdfmetrics", "pdfmetrics,write,subset,pdfmetrics", "pdfmetrics,ascffwrite,glyphwidthpdf,glyphbboxpdf,pdfmetrics"} {
+		th := c.Rng.Range(8, 16)
+		out := c.Case(Direct, "conc.parallel", fmt.Sprintf("font=cidread threads=%d ops=%s seed=%d", th, a, c.Rng.U64()>>1), true)
+		c.Stat("parallel.threads", bucket(th))
+		c.Stat("parallel.font", "cidread")
+		c.Stat("parallel.result", strings.SplitN(out, ":", 2)[0])
+		drain()
 	}
 	nHdr := c.N / 12
 	for j := 0; j < nHdr; j++ {
